@@ -35,7 +35,7 @@ pub fn run(ctx: &Ctx, rep: &mut Report) {
         "C18" if case % 2 == 0 => super::real_misc::c18_args_case(ctx, &env, &dir, case, seed, rep),
         "C19" if case % 2 == 0 => super::real_gated::c19_pty_case(ctx, &env, &dir, case, seed, rep),
         "C05" if case % 4 == 2 => super::real_gated::c05_sigint_case(ctx, &env, &dir, case, seed, rep),
-        "C05" if case % 8 == 5 => super::real_gated::c05_spawn_failure_case(ctx, &env, &dir, case, seed, rep),
+        "C05" if case % 4 == 1 => super::real_gated::c05_spawn_failure_case(ctx, &env, &dir, case, seed, rep),
         "C04" if case % 6 == 3 => super::real_gated::c04_bigout_case(ctx, &env, &dir, case, seed, rep),
         _ => general_case(ctx, &env, &dir, case, seed, rep),
     });
